@@ -352,6 +352,8 @@ func HTMLEscape(dst *bytes.Buffer, src []byte) {
 func Valid(data []byte) bool {
 	var v interface{}
 	decoder := NewDecoder(bytes.NewReader(data))
+	// validity is a matter of syntax: a number need not fit a float64
+	decoder.UseNumber()
 	err := decoder.Decode(&v)
 	if err != nil {
 		return false
